@@ -202,6 +202,18 @@ def discover_guards(func):
         if isinstance(t, ast.UnaryOp) and isinstance(t.op, ast.Not):
             visit_test(t.operand)
             return
+        # all(key in self.data for key in ('a', 'b')) / any(...): membership of each listed constant
+        if (isinstance(t, ast.Call) and isinstance(t.func, ast.Name) and t.func.id in ('all', 'any') and len(t.args) == 1
+                and isinstance(t.args[0], (ast.GeneratorExp, ast.ListComp)) and len(t.args[0].generators) == 1):
+            ge = t.args[0]
+            gen = ge.generators[0]
+            e = ge.elt
+            if (isinstance(gen.target, ast.Name) and not gen.ifs and isinstance(gen.iter, (ast.Tuple, ast.List))
+                    and all(isinstance(c, ast.Constant) and isinstance(c.value, str) for c in gen.iter.elts)
+                    and isinstance(e, ast.Compare) and len(e.ops) == 1 and isinstance(e.ops[0], (ast.In, ast.NotIn))
+                    and isinstance(e.left, ast.Name) and e.left.id == gen.target.id and is_self_data(e.comparators[0])):
+                keys.update(c.value for c in gen.iter.elts)
+                return
         if isinstance(t, ast.Compare) and len(t.ops) == 1:
             op = t.ops[0]
             l, r = t.left, t.comparators[0]
